@@ -1,5 +1,7 @@
 import LentilVerif.Model.Field
 import LentilVerif.Lemmas.Extent
+import LentilVerif.Lemmas.Field
+import Mathlib.Algebra.Ring.Defs
 import Mathlib.Algebra.GroupWithZero.Defs
 import Mathlib.Algebra.Group.Basic
 /-! # C06 — field and extent bookkeeping equals arithmetic on an infinite zero-padded plane
@@ -77,5 +79,156 @@ theorem array_center_roundtrip (e : Extent) :
 theorem array_center_of_arrayExtent (s0 s1 o0 o1 : Int) :
     arrayCenter (arrayExtent s0 s1 o0 o1) = (o0, o1) := by
   rw [arrayExtent_eq, arrayCenter_eq]; simp only [Prod.mk.injEq]; omega
+
+/-! ## Products -/
+section mul
+variable {K : Type} [MulZeroClass K]
+
+/-- **product = pointwise product of the embeddings** (array × array): for every pair of shapes and offsets and every
+pixel of the infinite plane; the product is empty (`none`) exactly when nothing overlaps, and then the pointwise product is 0 -/
+theorem mul_emb (a b : Fld K) (r c : Int) :
+    (match a.mulArr b with | some p => p.emb r c | none => 0) = a.emb r c * b.emb r c := by
+  have ra : a.emb r c = embAt a.extent a.arr.get r c := rfl
+  have rb : b.emb r c = embAt b.extent b.arr.get r c := rfl
+  rw [ra, rb]
+  unfold Fld.mulArr
+  generalize a.extent = ea
+  generalize b.extent = eb
+  by_cases h : intersect ea eb = true
+  · obtain ⟨s1, s2, s3, s4⟩ := slices_start ea eb
+    simp only [h, if_true, emb_mk, mulArr_extent ea eb h]
+    simp only [embAt, inter_inb, s1, s2, s3, s4]
+    have hx : ∀ (x m i : Int), x - m + (m - i) = x - i := by intros; omega
+    cases ea.inb r c <;> cases eb.inb r c <;> simp [hx]
+  · have hf : intersect ea eb = false := by simpa using h
+    have := not_intersect_inb ea eb hf r c
+    simp only [hf, embAt]
+    cases h1 : ea.inb r c <;> cases h2 : eb.inb r c <;> simp_all
+
+/-- `Field.__mul__` when at most one operand is a one-element field: the one-element operand acts as an infinite
+constant (`Fld.sem`), whatever its own offset -/
+theorem mul_sem (a b : Fld K) (hab : (a.size1 && b.size1) = false)
+    (ha : 0 < a.arr.s0 ∧ 0 < a.arr.s1) (hb : 0 < b.arr.s0 ∧ 0 < b.arr.s1) (r c : Int) :
+    (match a.mul b with | some p => p.emb r c | none => 0) = a.sem r c * b.sem r c := by
+  unfold Fld.mul
+  simp only [hab, Bool.false_eq_true, if_false]
+  rw [mul_emb]
+  unfold Fld.sem
+  cases h1 : a.size1 <;> cases h2 : b.size1
+  · simp
+  · -- b is the constant
+    simp only [Bool.false_eq_true, if_false, if_true]
+    have : (b.broadcastTo a).emb r c = embAt a.extent (fun _ _ => b.arr.get 0 0) r c := rfl
+    rw [this]
+    have ra : a.emb r c = embAt a.extent a.arr.get r c := rfl
+    rw [ra]; unfold embAt
+    cases a.extent.inb r c <;> simp
+  · simp only [Bool.false_eq_true, if_false, if_true]
+    have : (a.broadcastTo b).emb r c = embAt b.extent (fun _ _ => a.arr.get 0 0) r c := rfl
+    rw [this]
+    have rb : b.emb r c = embAt b.extent b.arr.get r c := rfl
+    rw [rb]; unfold embAt
+    cases b.extent.inb r c <;> simp
+  · simp [h1, h2] at hab
+
+/-- two one-element fields: the documented rule — the constants multiply when the offsets agree, and the product is
+empty otherwise -/
+theorem mul_scalar_scalar (a b : Fld K) (hab : (a.size1 && b.size1) = true) :
+    a.mul b = if a.o0 = b.o0 ∧ a.o1 = b.o1
+      then some { arr := { s0 := 1, s1 := 1, get := fun _ _ => a.arr.get 0 0 * b.arr.get 0 0 }, o0 := a.o0, o1 := a.o1 }
+      else none := by
+  unfold Fld.mul
+  simp only [hab, if_true]
+  by_cases h : a.o0 = b.o0 ∧ a.o1 = b.o1
+  · simp [h]
+  · have : (decide (a.o0 = b.o0) && decide (a.o1 = b.o1)) = false := by
+      rw [Bool.eq_false_iff]; intro hh; simp only [Bool.and_eq_true, decide_eq_true_eq] at hh; exact h hh
+    simp [this, h]
+
+end mul
+
+/-! ## Merging -/
+
+/-- **a merge is the sum of the embeddings**, for any number of fields of any shapes and offsets — also wholly
+negative extents, where `boundary`'s `rmax = 0` start only enlarges the box with zeros. (`mergeL fs = some p` excludes only
+the corner in which the bounding box is the single origin pixel, where NumPy raises.) -/
+theorem merge_emb {K : Type} [AddZeroClass K] (fs : List (Fld K)) (hne : fs ≠ [])
+    (hpos : ∀ f ∈ fs, 0 < f.arr.s0 ∧ 0 < f.arr.s1) (p : Fld K) (h : mergeL fs = some p) (r c : Int) :
+    p.emb r c = sumList fs (fun f => f.emb r c) := by
+  unfold mergeL at h
+  simp only [] at h
+  generalize hb : boundaryL (fs.map Fld.extent) = b at h
+  have hcont : ∀ f ∈ fs, b.rmin ≤ f.extent.rmin ∧ f.extent.rmax ≤ b.rmax ∧ b.cmin ≤ f.extent.cmin ∧ f.extent.cmax ≤ b.cmax := by
+    intro f hf; have := boundary_contains fs f hf; simp only [hb] at this; exact this
+  have hv : b.rmin ≤ b.rmax ∧ b.cmin ≤ b.cmax := by
+    obtain ⟨f, hf⟩ := List.exists_mem_of_ne_nil fs hne
+    have h1 := hcont f hf
+    have h2 := f.extent_valid (hpos f hf)
+    omega
+  cases hs : Gen.mergeShape b.rmin b.rmax b.cmin b.cmax with
+  | none => simp [hs] at h
+  | some shp =>
+    simp only [hs, Option.some.injEq] at h
+    subst h
+    rw [emb_mk, merge_box b shp hs hv]
+    unfold embAt
+    by_cases hin : b.inb r c = true
+    · rw [if_pos hin]
+      apply sumList_congr
+      intro f hf
+      have hc := hcont f hf
+      have fe : f.emb r c = embAt f.extent f.arr.get r c := rfl
+      rw [fe]; unfold embAt
+      have hg : (decide (f.extent.rmin - b.rmin ≤ r - b.rmin) && decide (r - b.rmin < f.extent.rmax - b.rmin + 1) &&
+          decide (f.extent.cmin - b.cmin ≤ c - b.cmin) && decide (c - b.cmin < f.extent.cmax - b.cmin + 1)) = f.extent.inb r c := by
+        rw [Bool.eq_iff_iff, Extent.inb_iff]; simp only [Bool.and_eq_true, decide_eq_true_eq]; omega
+      have hx : ∀ (x m i : Int), x - m - (i - m) = x - i := by intros; omega
+      simp only [hg, hx]
+    · rw [if_neg hin]
+      have : sumList fs (fun f => f.emb r c) = sumList fs (fun _ => (0 : K)) := by
+        apply sumList_congr
+        intro f hf
+        have hc := hcont f hf
+        have fe : f.emb r c = embAt f.extent f.arr.get r c := rfl
+        rw [fe]; unfold embAt
+        have : f.extent.inb r c = false := by
+          rw [Bool.eq_false_iff]; intro hh; rw [Extent.inb_iff] at hh
+          apply hin; rw [Extent.inb_iff]; omega
+        simp [this]
+      rw [this, sumList_zero]
+
+/-! ## Insertion -/
+section insert
+variable {K : Type} [NonUnitalNonAssocSemiring K]
+
+/-- **insert adds exactly the part of the embedding that falls inside the array** — all, some or none of it — for every
+target shape, field shape and offset of either sign: `out'[i][j] = out[i][j] + post(emb(i − S0/2, j − S1/2))·w`, where the
+target's origin sample is at index `(S0/2, S1/2)` (`post = id` for the complex field, `|·|²` for intensity) -/
+theorem insert_emb (f : Fld K) (out : Arr K) (w : K) (post : K → K) (i j : Int)
+    (hi : 0 ≤ i ∧ i < out.s0) (hj : 0 ≤ j ∧ j < out.s1) :
+    (insertArr f out w post).get i j =
+      out.get i j + (if f.extent.inb (i - out.s0 / 2) (j - out.s1 / 2)
+                     then post (f.arr.get (i - out.s0 / 2 - f.extent.rmin) (j - out.s1 / 2 - f.extent.cmin)) * w else 0) := by
+  unfold insertArr
+  cases h : Gen.insertIdx f.arr.s0 f.arr.s1 f.o0 f.o1 out.s0 out.s1 with
+  | none =>
+    have := insertIdx_none _ _ _ _ _ _ h i j hi hj
+    simp only [Fld.extent, this, Bool.false_eq_true, if_false, add_zero]
+  | some v =>
+    obtain ⟨⟨orow, ocol⟩, ⟨frow, fcol⟩⟩ := v
+    obtain ⟨g, e1, e2⟩ := insertIdx_some _ _ _ _ _ _ orow ocol frow fcol h i j hi hj
+    simp only [g, e1, e2]
+    show (if (arrayExtent f.arr.s0 f.arr.s1 f.o0 f.o1).inb (i - out.s0 / 2) (j - out.s1 / 2) = true then _ else _) =
+      out.get i j + (if (arrayExtent f.arr.s0 f.arr.s1 f.o0 f.o1).inb (i - out.s0 / 2) (j - out.s1 / 2) = true then _ else _)
+    by_cases hb : (arrayExtent f.arr.s0 f.arr.s1 f.o0 f.o1).inb (i - out.s0 / 2) (j - out.s1 / 2) = true
+    · rw [if_pos hb, if_pos hb]; rfl
+    · rw [if_neg hb, if_neg hb, add_zero]
+
+/-- the shape of the target never changes -/
+theorem insert_shape (f : Fld K) (out : Arr K) (w : K) (post : K → K) :
+    (insertArr f out w post).s0 = out.s0 ∧ (insertArr f out w post).s1 = out.s1 := by
+  unfold insertArr; split <;> simp
+
+end insert
 
 end Lentil.C06
